@@ -19,7 +19,9 @@ macro_rules! h {
         #[kani::stub(std::alloc::alloc, alloc_stub)]
         #[kani::stub(alloc::alloc::dealloc_nonnull, dealloc_stub)]
         fn $name() {
-            $body
+            crate::ghost::arm();
+            $body;
+            kani::cover!(true, "end of harness reached");
         }
     };
 }
@@ -160,6 +162,7 @@ h!(q_thin_with_arc_mut_get_unique, {
 #[kani::stub(std::alloc::alloc, alloc_stub)]
 #[kani::stub(alloc::alloc::dealloc_nonnull, dealloc_stub)]
 fn qp_deprecated_write_gate() {
+    crate::ghost::arm();
     let a: Arc<MaybeUninit<u16>> = Arc::new_uninit();
     let w = ManuallyDrop::new(unsafe { core::ptr::read(&a) });
     let mut h = a;
@@ -180,6 +183,7 @@ fn qp_deprecated_write_gate() {
 #[kani::stub(std::alloc::alloc, alloc_stub)]
 #[kani::stub(alloc::alloc::dealloc_nonnull, dealloc_stub)]
 fn qp_deprecated_as_mut_slice_gate() {
+    crate::ghost::arm();
     let a: Arc<[MaybeUninit<u16>]> = Arc::new_uninit_slice(2);
     let w = ManuallyDrop::new(unsafe { core::ptr::read(&a) });
     let mut h = a;
@@ -198,6 +202,7 @@ fn qp_deprecated_as_mut_slice_gate() {
 #[kani::stub(std::alloc::alloc, alloc_stub)]
 #[kani::stub(alloc::alloc::dealloc_nonnull, dealloc_stub)]
 fn qp_deprecated_write_shared_refused() {
+    crate::ghost::arm();
     let a: Arc<MaybeUninit<u16>> = Arc::new_uninit();
     let b = a.clone();
     let mut h = a;
